@@ -70,6 +70,12 @@ func ParseASN1PublicKey(data []byte) (*PublicKey, error) {
 		return nil, errInvalidAsn1Curve
 	}
 
+	// The BIT STRING wraps an octet string (the SEC 1 encoded point),
+	// so it MUST NOT have any unused bits.
+	if subjectPublicKey.BitLength != 8*len(subjectPublicKey.Bytes) {
+		return nil, errInvalidAsn1SPKI
+	}
+
 	encodedPoint := subjectPublicKey.RightAlign()
 	return NewPublicKey(encodedPoint)
 }
